@@ -26,7 +26,7 @@ ID = "C14"
 LEVEL = "exploration"
 DECIDING = ["C14.detailed_balance", "C14.pattern_is_saved_adjacency", "C14.decomposition"]
 RULE = ("pipelines = (grid spec: rotation algorithm x n_b in {1,4,5,8}, direction algorithm x n_o in {4,7,12,13}, 2-3 unequal radii, factor in "
-        "{0.5,1,2}, both position modes (Cartesian only for direction sets that surround the origin); energies uniform +-20 kJ/mol around 0, -4e5 or +1e4 kJ/mol written to a "
+        "{0.5,1,2,1500,0.01}, both position modes (Cartesian only for direction sets that surround the origin); energies uniform +-20 kJ/mol around 0, -4e5 or +1e4 kJ/mol, optionally with a 430 kJ/mol deep well, written to a "
         "generated xvg file; T in [200,400] K; solver settings (sigma None,'LR'), (small positive sigma,'LM'), the workflow's own rule with its "
         "k=12, k in {3,6}, tol 1e-5 and 1e-10; for half of the pipelines one DecompositionTool object serves all settings in random order). Non-trivial = connected grid with >=14 cells, both neighbour families; distinct by pipeline digest")
 ASSUMPTIONS = ["the zero spectral shift shipped as SQRA default is excluded by the statement (singular shift-invert)",
@@ -217,6 +217,10 @@ def pipeline(spec, rng, nprng, d, repo):
     offset = spec.get("energy_offset", 0.0)
     spread = spec.get("energy_spread", 20.0)
     energies = offset + nprng.uniform(-spread, spread, size=n)
+    if spec.get("deep_well"):
+        # a few cells in a deep well: neighbour differences of ~430 kJ/mol, still below the documented 500 kJ/mol cap
+        k = max(1, n // 10)
+        energies[nprng.choice(n, size=k, replace=False)] -= 430.0
     epath = os.path.join(d, "energy.xvg")
     write_energy(epath, energies, rng)
     # ---- stage 2: files -> rate matrix -------------------------------------------------------------------
@@ -287,6 +291,10 @@ def pipeline(spec, rng, nprng, d, repo):
             settings.append(("direct", dict(tol=rng.choice([1e-5, 1e-10]), maxiter=100000, sigma=None, which="LR", k=kk)))
             settings.append(("direct", dict(tol=1e-10, maxiter=100000, sigma=gap * rng.uniform(0.05, 0.4), which="LM", k=kk)))
             settings.append(("direct", dict(tol=1e-8, maxiter=100000, sigma=None, which=rng.choice(["SR", "LM", "SM"]), k=kk)))
+    if spec.get("deep_well") or spec["factor"] not in (0.5, 1, 2):
+        # ARPACK needs very many iterations on stiff matrices (deep wells; rotational and translational rates differing by f^2 ~ 1e6):
+        # fewer settings and a lower iteration cap keep the quick tier quick (non-convergence is counted as skipped)
+        settings = [(h, dict(kw, maxiter=5000)) for h, kw in settings[:4]]
     shared_tool = None
     if spec.get("shared_tool"):
         # history: ONE DecompositionTool asked with several settings in turn (results must not depend on earlier requests)
@@ -351,7 +359,8 @@ def make_spec(rng):
         r.append(round(r[-1] + rng.choice([0.05, 0.1, 0.2]), 3))
     t = "[" + ", ".join(str(x) for x in r) + "]"
     cart = rng.random() < 0.4 and surrounds(oalg, n_o)
-    return {"b": f"{balg}_{n_b}" if n_b > 1 else "1", "o": f"{oalg}_{n_o}", "t": t, "factor": rng.choice([0.5, 1, 2]), "cartesian": cart,
+    return {"b": f"{balg}_{n_b}" if n_b > 1 else "1", "o": f"{oalg}_{n_o}", "t": t, "factor": rng.choice([0.5, 1, 2, 2, 1500, 0.01]), "cartesian": cart,
+            "deep_well": rng.random() < 0.25,
             "T": rng.choice([200.0, 273.0, 300.0, 400.0]), "D": rng.choice([0.1, 1.0, 27.5]), "route": rng.choice(["workflow", "workflow", "library"]),
             "n_b": n_b, "energy_offset": rng.choice([0.0, 0.0, -4.0e5, 1.0e4]), "shared_tool": rng.random() < 0.5}
 
@@ -366,6 +375,8 @@ def run_shard(spec):
     # small grids on which ARPACK converges before rounding noise can re-introduce the stationary vector (regression cases of F15):
     # every run contains them, whatever the seed
     fixed = {0: {"b": "1", "o": "randomS_7", "t": "[0.35, 0.4, 0.5]", "factor": 2, "cartesian": False, "T": 400.0, "D": 27.5, "route": "library", "n_b": 1, "shared_tool": True, "energy_offset": -4.0e5},
+             3: {"b": "4", "o": "ico_7", "t": "[0.2, 0.35]", "factor": 1500, "cartesian": False, "T": 300.0, "D": 1.0, "route": "library", "n_b": 4},
+             4: {"b": "1", "o": "ico_12", "t": "[0.2, 0.3, 0.45]", "factor": 2, "cartesian": False, "T": 220.0, "D": 1.0, "route": "library", "n_b": 1, "deep_well": True},
              1: {"b": "1", "o": "ico_12", "t": "[0.2, 0.3]", "factor": 1, "cartesian": False, "T": 300.0, "D": 1.0, "route": "workflow", "n_b": 1},
              2: {"b": "4", "o": "cube3D_4", "t": "[0.2, 0.35]", "factor": 2, "cartesian": False, "T": 273.0, "D": 1.0, "route": "library", "n_b": 4}}
     k = spec["rseed"] % 1000
